@@ -91,3 +91,51 @@ pub fn drive(args: &[String]) {
     sink.flush();
     println!("{}", json!({"events": sink.n}));
 }
+
+// ------------------------------------------------------------------ hooked runs (cfg rust_dsymbols_verif)
+
+#[cfg(rust_dsymbols_verif)]
+pub fn drive_hooked(args: &[String]) {
+    let out = arg(args, "--out").unwrap();
+    let n = arg_usize(args, "--graphs", 300);
+    let mut sink = Sink::create(&out);
+    let mut rng = rng(192);
+    for run in 0..n {
+        let nv = rng.gen_range(4..=8usize);
+        let p = *[0.25, 0.4, 0.6].choose(&mut rng).unwrap();
+        let undirected = run % 2 == 0;
+        let mut edges: Vec<(usize, usize)> = vec![];
+        for a in 1..=nv { for b in 1..=nv {
+            if a < b && rng.gen_bool(p) {
+                // undirected entry point: one direction is given; directed: antiparallel pairs are frequent
+                if undirected { edges.push(if rng.gen_bool(0.5) { (a, b) } else { (b, a) }); }
+                else { match rng.gen_range(0..4) { 0 => edges.push((a, b)), 1 => edges.push((b, a)), _ => { edges.push((a, b)); edges.push((b, a)); } } }
+            }
+        } }
+        let s = rng.gen_range(1..=nv);
+        let mut t = rng.gen_range(1..=nv);
+        if t == s { t = s % nv + 1; }
+        let tag = format!("g{run}");
+        let seen: Vec<Vec<usize>> = if undirected { edges.iter().flat_map(|&(a, b)| [vec![a, b], vec![b, a]]).collect() } else { edges.iter().map(|&(a, b)| vec![a, b]).collect() };
+        sink.emit(json!({"ev": "header", "run": tag, "edges": seen, "s": s, "t": t, "undirected": undirected}));
+        let _ = rust_dsymbols::verif::take();
+        let e2 = edges.clone();
+        let r = catch(|| if undirected { min_edge_cut_undirected(e2, s, t) } else { min_edge_cut(e2, s, t) });
+        for e in rust_dsymbols::verif::take() {
+            let mut v: Value = serde_json::from_str(&e).expect("hook event");
+            v["run"] = json!(tag);
+            sink.emit(v);
+        }
+        match r {
+            Ok(c) => sink.emit(json!({"ev": "finish", "run": tag, "cut": c.cut_edges.iter().map(|&(a, b)| vec![a, b]).collect::<Vec<_>>(), "inside": c.inside_vertices})),
+            Err(m) => sink.emit(json!({"ev": "finish", "run": tag, "panic": m})),
+        }
+    }
+    sink.flush();
+    println!("{}", json!({"events": sink.n, "runs": n}));
+}
+
+#[cfg(not(rust_dsymbols_verif))]
+pub fn drive_hooked(_args: &[String]) {
+    println!("{}", json!({"events": 0, "runs": 0, "hooks": "not compiled in"}));
+}
